@@ -28,6 +28,13 @@ Theorem C20_clusters_mirror_hierarchy : forall c t, Mirrors t (viz_node c t).
 Proof. exact render_mirrors. Qed.
 Print Assumptions C20_clusters_mirror_hierarchy.
 
+(* the same at the strength of the property text, which fixes the nesting but not the order of the statements
+   inside a cluster: the body of each cluster is a permutation of the drawings of the children (the model, like the
+   code, keeps the order of Hugr.children - the statement above) *)
+Theorem C20_clusters_mirror_hierarchy_up_to_sibling_order : forall c t, MirrorsP t (viz_node c t).
+Proof. exact render_mirrors_perm. Qed.
+Print Assumptions C20_clusters_mirror_hierarchy_up_to_sibling_order.
+
 (* one edge statement per link, naming the link's node indices and port offsets, labelled by the type
    for value edges and unlabelled otherwise *)
 Theorem C20_one_edge_per_link : forall c h, EdgesOnce h (render c (hv_tree h) (hv_links h)).
@@ -54,6 +61,7 @@ Theorem C20_model_meets_executable_spec : forall c h,
 Proof. exact render_meets_spec. Qed.
 Print Assumptions C20_model_meets_executable_spec.
 Theorem C20_monitor_clauses_sound :
-  (forall h d, nodes_once_b h d = true -> NodesOnce h d) /\ (forall t d, mirrors_b t d = true -> Mirrors t d).
-Proof. exact (conj nodes_once_b_sound mirrors_b_sound). Qed.
+  (forall h d, nodes_once_b h d = true -> NodesOnce h d) /\ (forall t d, mirrors_b t d = true -> Mirrors t d) /\
+  (forall t d, mirrors_perm_b t d = true -> MirrorsP t d) /\ (forall t d, Mirrors t d -> MirrorsP t d).
+Proof. exact (conj nodes_once_b_sound (conj mirrors_b_sound (conj mirrors_perm_b_sound mirrors_weaken))). Qed.
 Print Assumptions C20_monitor_clauses_sound.
